@@ -225,6 +225,45 @@ def run(chk, facts, info):
     rule_r3(chk, facts)
     rule_r4(chk, facts)
     rule_r5(chk, facts)
+    chk.rule('C09-R9', 'ieeefloat.c, half precision: the decision to round the mantissa up depends on *all* bits that are '
+             'cut off - the low bits of the working mantissa and the separately kept low 24 bits of the double (Fraction): '
+             'the flag that guards "Mantissa += ..." is defined by expressions, or under conditions, that read both. '
+             '(Decides which bits take part in the decision, not the rounding arithmetic itself.)', min_instances=1)
+    fh = facts.func('ieeefloat.c', 'Double_2_ieee2')
+    n9 = 0
+    for bid, bl in fh.blocks.items():
+        c = bl.get('cond')
+        if c is None or len(bl['succ']) != 2 or strip(c)[0] != 'l':
+            continue
+        flag = strip(c)
+        t = bl['succ'][0]
+        if t is None or t < 0:
+            continue
+        region = fh.reach_forward([t]) - fh.reach_forward([bl['succ'][1]] if bl['succ'][1] is not None and bl['succ'][1] >= 0 else [])
+        adds = any(is_assign(m) and m[1] in ('+=',) and strip(m[2]) == ('l', 'Mantissa') for bb in region for ln, ex in fh.blocks[bb]['elems'] for m in walk_own(ex))
+        if not adds:
+            continue
+        n9 += 1
+        deps = set()
+        for b, i, ln, m in fh.nodes():
+            if is_assign(m) and m[1] == '=' and strip(m[2]) == flag:
+                deps |= {x[1] for x in walk(m[3]) if isinstance(x, (list, tuple)) and len(x) == 2 and x[0] == 'l'}
+                for b2, bl2 in fh.blocks.items():
+                    c2 = bl2.get('cond')
+                    if c2 is None or len(bl2['succ']) != 2:
+                        continue
+                    for pol in ('T', 'F'):
+                        if fh.guarded(b, i, lambda l, c2=c2, pol=pol: l is not None and l[0] == pol and l[1] is c2)[0]:
+                            deps |= {x[1] for x in walk(c2) if isinstance(x, (list, tuple)) and len(x) == 2 and x[0] == 'l'}
+            if m[0] == 'decl' and m[1] == flag[1] and m[2] is not None:
+                deps |= {x[1] for x in walk(m[2]) if isinstance(x, (list, tuple)) and len(x) == 2 and x[0] == 'l'}
+        ok = {'Mantissa', 'Fraction'} <= deps
+        chk.ob('C09-R9', 'ieeefloat.c:Double_2_ieee2:%s-depends-on-all-cut-bits' % flag[1], ok, fh.loc(),
+               'decision reads %s' % ', '.join(sorted(deps)) if ok else
+               'the round-up decision reads only %s: the bits kept in %s do not take part, so a value just above a tie is '
+               'rounded as if it were the tie' % (', '.join(sorted(deps)) or 'nothing', ', '.join(sorted({'Mantissa', 'Fraction'} - deps))))
+    if n9 < 1:
+        raise AnalysisBroken('Double_2_ieee2: round-up flag not found')
     chk.rule('C09-R8', 'in the data-definition modules a string that went through the character map (TranslateString()) is '
              'handled by its length from then on: no NUL-terminated string function (strlen, strcpy, strcmp, ...) is '
              'applied to the translated buffer afterwards - CHARSET may map a character to code 0, which must be emitted, '
